@@ -151,10 +151,16 @@ def gen_shape(r, ndim=None, max_elems=160, max_len=12):
             return sh
 
 
-def gen_data(r, shape, dtype):
+def gen_data(r, shape, dtype, big=False):
     n = int(np.prod(shape))
     if dtype in INT_DTYPES:
         lo = 0 if dtype.startswith("u") else -9
+        if big and dtype != "int64" and r.random() < 0.3:
+            # counts near the top of a narrow integer dtype: a block sum must not wrap around in the
+            # input dtype ("sums exactly the pixels of each block" for int data)
+            hi = int(np.iinfo(dtype).max)
+            d = [8 * r.randint(hi - hi // 8, hi) for _ in range(n)]
+            return d, None
         d = [8 * r.randint(lo, 14) for _ in range(n)]
         return d, None
     d = [r.randint(-40, 72) for _ in range(n)]
@@ -191,7 +197,7 @@ def gen_bin_case(r, quick=True):
     dtype = r.choice(ALL_DTYPES)
     shape = gen_shape(r)
     nd = len(shape)
-    d, di = gen_data(r, shape, dtype)
+    d, di = gen_data(r, shape, dtype, big=True)
     k = r.choice([nd, r.randint(1, nd), r.randint(1, nd)])
     axes = sorted(r.sample(range(nd), k))
     if r.random() < 0.3:
@@ -1067,8 +1073,16 @@ def run(ctx: Ctx):
         "theorems about the Fourier pipeline are over an abstract commutative ring with root-of-unity families "
         "(premises root_ok; satisfiable: Q(i), sizes 1, 2, 4) and are one-axis statements lifted line by line to N-D; "
         "floating-point rounding is not modelled (stated tolerances)",
+        "harness/translate_arith.py: the per-axis index arithmetic of pad / crop / bin / fourier_resample is re-translated "
+        "from the current source on every run and proved equal to the model definitions (coq/gen_proofs/Arith_Dataset_*.v)",
     ]
     ctx.proofs_or_violation()
+    try:  # the model's pad widths / crop bounds / bin cut / centred crop-pad = the CURRENT source, by theorem
+        from ..arith_tie import run_tie
+        run_tie(ctx, ["shift_center_index", "pad_widths", "crop_slice", "bin_cut", "bin_blocks", "bin_meta",
+                      "resample_croppad"])
+    except Exception as e:  # noqa  (fail closed: the tie could not be established)
+        ctx.broken_obligation = "; ".join(filter(None, [ctx.broken_obligation, "arithmetic tie could not run: %r" % (e,)]))
     check_bin(ctx)
     check_padcrop(ctx)
     check_resample(ctx)
